@@ -14,3 +14,8 @@ import (
 func VerifWriteTarToDir(r io.Reader, destDir string) error {
 	return writeTarToDir(r, destDir)
 }
+
+// VerifWriteFirstFileAs is writeFirstFileAs.
+func VerifWriteFirstFileAs(r io.Reader, file string) error {
+	return writeFirstFileAs(r, file)
+}
